@@ -9,7 +9,7 @@ def fn_ob(be, k, m, hd, lo, hi, beyond=False, rev=False, timeout=900, mem=4, l1=
     if beyond: defs["BEYOND"] = None
     if rev: defs["REVERSED"] = None
     return Ob(id=f"need-{BNAME[be]}{k}_{m}_{hd}-{lo}to{hi}" + ("-beyond" if beyond else "") + ("-rev" if rev else "") + ("" if l1 or be != XOR else "-api"), harness="c06.c", defs=defs,
-              units=(["xor_code", "xor_hd_code", "xor_eq", "env"] if l1 else FRONT + ["xor_eq"]), unwind=k + m + 4, timeout=timeout, mem_gb=mem,
+              units=(["xor_code", "xor_hd_code", "xor_eq", "env"] if l1 else FRONT + ["xor_eq"]), unwind=k + m + 4, timeout=timeout, mem_gb=(mem if k + m <= 18 else max(mem, 8)),
               unwindset={"pop.0": 34, "xor_eq_find.0": 40, "ec_init_tables.0": 40, "ec_init_tables.1": 40, "ec_init_tables.2": 40},
               sample={"symbolic": f"disjoint bitmasks R (non-empty), X over {k+m} indexes with {lo} <= |R|+|X| <= {hi}", "shape": [BNAME[be], k, m, hd],
                       "list_order": "descending" if rev else "ascending", "beyond_tolerance": beyond},
